@@ -327,3 +327,137 @@ Proof.
   - eapply Hu; eauto.
   - eapply Hu; eauto.
 Qed.
+
+(* ---- pairing for every AcqInfo array that the operations only move (not only scan_counter) ------------------------------ *)
+Section AllArrays.
+  Variable rs : Z -> Prop.     (* the AcqInfo arrays that are followed: any set that avoids the label written by a split and,
+                                  if remove_readout_os is used, center_sample (array 7), whose values are shifted *)
+
+  Definition refines_on (k' k : fds) : Prop :=
+    forall o c a b j, inr5 k' o c a b j ->
+      exists o' a' b' j', inr5 k o' c a' b' j' /\ fd k' o c a b j = fd k o' c a' b' j' /\
+                          (forall m, ft k' m o a b j = ft k m o' a' b' j') /\
+                          (forall r, rs r -> fi k' r o a b = fi k r o' a' b').
+
+  Definition inv_on (k : fds) : Prop := forall r, rs r -> ish k r = (nO k, n2 k, n1 k).
+
+  Lemma refines_on_refl k : refines_on k k.
+  Proof. intros o c a b j H. exists o, a, b, j. auto. Qed.
+
+  Lemma refines_on_trans k3 k2 k1 : refines_on k3 k2 -> refines_on k2 k1 -> refines_on k3 k1.
+  Proof.
+    intros H32 H21 o c a b j H. destruct (H32 _ _ _ _ _ H) as (o2 & a2 & b2 & j2 & R2 & D2 & T2 & I2).
+    destruct (H21 _ _ _ _ _ R2) as (o1 & a1 & b1 & j1 & R1 & D1 & T1 & I1).
+    exists o1, a1, b1, j1. split; [exact R1|]. split; [congruence|]. split.
+    - intros m. rewrite T2. apply T1.
+    - intros r Hr. rewrite (I2 r Hr). now apply I1.
+  Qed.
+
+  Lemma split_k1_refines_on sidx label k k' : ~ rs label -> inv_on k -> split_k1 sidx label k = inr k' -> refines_on k' k /\ inv_on k'.
+  Proof.
+    intros Hl Hi. unfold split_k1.
+    destruct (1 <? _); [discriminate|]. destruct (_ || _) eqn:E1; [discriminate|]. destruct (t1 k <=? _); [discriminate|].
+    intros E. injection E as <-. apply orb_false_iff in E1. destruct E1 as [E1 E2]. split.
+    - intros o c a b j (Ho & Hc & Ha & Hb & Hj). cbn in *.
+      destruct (div_range _ _ _ (Zle_0_nat _) Ho) as [Hd Hm].
+      pose proof (zfun2_bounds sidx (o mod Z.of_nat (length sidx)) b) as Hz.
+      exists (o / Z.of_nat (length sidx)), a, (zfun2 sidx (o mod Z.of_nat (length sidx)) b), j.
+      split; [unfold inr5; repeat split; lia|]. split; [reflexivity|]. split; [reflexivity|].
+      intros r Hr. destruct (Z.eqb_spec r label); [subst; contradiction|reflexivity].
+    - intros r Hr. cbn. destruct (Z.eqb_spec r label); [subst; contradiction|]. rewrite (Hi r Hr). reflexivity.
+  Qed.
+
+  Lemma split_k2_refines_on sidx label k k' : ~ rs label -> inv_on k -> split_k2 sidx label k = inr k' -> refines_on k' k /\ inv_on k'.
+  Proof.
+    intros Hl Hi. unfold split_k2.
+    destruct (1 <? _); [discriminate|]. destruct (_ || _) eqn:E1; [discriminate|]. destruct (t2 k <=? _); [discriminate|].
+    intros E. injection E as <-. apply orb_false_iff in E1. destruct E1 as [E1 E2]. split.
+    - intros o c a b j (Ho & Hc & Ha & Hb & Hj). cbn in *.
+      destruct (div_range _ _ _ (Zle_0_nat _) Ho) as [Hd Hm].
+      pose proof (zfun2_bounds sidx (o mod Z.of_nat (length sidx)) a) as Hz.
+      exists (o / Z.of_nat (length sidx)), (zfun2 sidx (o mod Z.of_nat (length sidx)) a), b, j.
+      split; [unfold inr5; repeat split; lia|]. split; [reflexivity|]. split; [reflexivity|].
+      intros r Hr. destruct (Z.eqb_spec r label); [subst; contradiction|reflexivity].
+    - intros r Hr. cbn. destruct (Z.eqb_spec r label); [subst; contradiction|]. rewrite (Hi r Hr). reflexivity.
+  Qed.
+
+  Lemma select_refines_on subset label k k' : fst (fst (ish k label)) = nO k -> inv_on k ->
+    select_other_subset subset label k = inr k' -> refines_on k' k /\ inv_on k'.
+  Proof.
+    intros Hs Hi. unfold select_other_subset. destruct (negb _); [discriminate|]. intros E. injection E as <-. split.
+    - intros o c a b j (Ho & Hc & Ha & Hb & Hj). cbn in *.
+      set (oi := other_index k label subset) in *.
+      assert (Hin : In (nth (Z.to_nat o) oi 0) oi) by (apply nth_In; lia).
+      pose proof (other_index_range k label subset _ Hs Hin).
+      exists (nth (Z.to_nat o) oi 0), a, b, j. split; [unfold inr5; repeat split; lia|]. auto.
+    - intros r Hr. cbn. rewrite (Hi r Hr). reflexivity.
+  Qed.
+
+  Lemma rearrange_refines_on k k' : 0 < n1 k -> inv_on k -> rearrange_k2_k1_into_k1 k = inr k' -> refines_on k' k /\ inv_on k'.
+  Proof.
+    intros Hp Hi. unfold rearrange_k2_k1_into_k1. intros E. injection E as <-. split.
+    - intros o c a b j (Ho & Hc & Ha & Hb & Hj). cbn in *.
+      destruct (div_range b (n2 k) (n1 k) (Z.lt_le_incl _ _ Hp) Hb) as [Hd Hm].
+      exists o, (b / n1 k), (b mod n1 k), j. split; [unfold inr5; repeat split; lia|]. split; [reflexivity|]. split; [reflexivity|].
+      intros r Hr. rewrite (Hi r Hr). reflexivity.
+    - intros r Hr. cbn. rewrite (Hi r Hr). reflexivity.
+  Qed.
+
+  Lemma remove_os_refines_on k k' : ~ rs 7 -> inv_on k -> remove_readout_os k = inr k' -> refines_on k' k /\ inv_on k'.
+  Proof.
+    intros H7 Hi. unfold remove_readout_os. destruct (Z.eqb_spec (reconx k) (encx k)).
+    - intros E. injection E as <-. split; [apply refines_on_refl|exact Hi].
+    - destruct (Z.ltb_spec (encx k) (reconx k)); [discriminate|]. intros E. injection E as <-. split.
+      + intros o c a b j (Ho & Hc & Ha & Hb & Hj). cbn in *.
+        exists o, a, b, ((encx k / 2 - reconx k / 2) + j). split; [unfold inr5; repeat split; lia|].
+        split; [reflexivity|]. split; [reflexivity|].
+        intros r Hr. destruct (Z.eqb_spec r 7); [subst; contradiction|reflexivity].
+      + exact Hi.
+  Qed.
+
+  Lemma compress_refines_on n k k' : n <= nC k -> inv_on k -> compress_coils n k = inr k' -> refines_on k' k /\ inv_on k'.
+  Proof.
+    intros Hn Hi E. injection E as <-. split; [|exact Hi].
+    intros o c a b j (Ho & Hc & Ha & Hb & Hj). cbn in *. exists o, a, b, j. split; [unfold inr5; repeat split; lia|]. auto.
+  Qed.
+
+  Definition op_ok_on (op : kop) (k : fds) : Prop :=
+    match op with
+    | OpSplitK1 _ l | OpSplitK2 _ l => ~ rs l
+    | OpSelect _ l => fst (fst (ish k l)) = nO k
+    | OpRearrange => 0 < n1 k
+    | OpRemoveOs => ~ rs 7
+    | OpCompress n => n <= nC k
+    | _ => True
+    end.
+
+  Lemma apply_op_refines_on op k k' : op_ok_on op k -> inv_on k -> apply_op op k = inr k' -> refines_on k' k /\ inv_on k'.
+  Proof.
+    destruct op; cbn [op_ok_on apply_op]; intros Hok Hi E.
+    - now apply (split_k1_refines_on sidx label).
+    - now apply (split_k2_refines_on sidx label).
+    - now apply (select_refines_on subset label).
+    - now apply rearrange_refines_on.
+    - now apply remove_os_refines_on.
+    - now apply (compress_refines_on n).
+    - injection E as <-. split; [apply refines_on_refl|exact Hi].
+    - injection E as <-. split; [apply refines_on_refl|exact Hi].
+  Qed.
+
+  Fixpoint run_ok_on (ops : list kop) (k : fds) : Prop :=
+    match ops with
+    | [] => True
+    | op :: r => op_ok_on op k /\ match apply_op op k with inr k' => run_ok_on r k' | inl _ => True end
+    end.
+
+  Lemma run_refines_on ops : forall k, inv_on k -> run_ok_on ops k ->
+    refines_on (fst (fst (run ops k))) k /\ inv_on (fst (fst (run ops k))).
+  Proof.
+    induction ops as [|op r IH]; intros k Hi Hok; cbn [run].
+    - split; [apply refines_on_refl|exact Hi].
+    - destruct Hok as [H1 H2]. destruct (apply_op op k) as [e|k'] eqn:E.
+      + cbn. split; [apply refines_on_refl|exact Hi].
+      + destruct (apply_op_refines_on _ _ _ H1 Hi E) as [R1 I1]. destruct (IH k' I1 H2) as [R2 I2].
+        destruct (run r k') as [[kf e] n]. cbn in *. split; [eapply refines_on_trans; eauto|exact I2].
+  Qed.
+End AllArrays.
